@@ -235,6 +235,8 @@ class World:
                'pollinterval': {'value': sc.get('pollinterval', 3)}}
         if sc.get('wait_before'):
             cfg['wait_before'] = {'value': sc['wait_before']}
+        if sc.get('eol'):       # a terminator of several bytes (line-oriented variant): may be cut by the chunking
+            cfg['end_of_line'] = sc['eol']
         if sc.get('ident'):     # identification exchange on every connect: command 90, reply must be that of 90
             cfg['identification'] = [('C 9 0', 'R 9 0 !')] if sc.get('bytes') else [('C90', 'R90$')]
             if 'retry_first_idn' in sc and not sc.get('bytes'):
@@ -268,11 +270,12 @@ def make_device(w, sc):
     dev = w.dev
     is_bytes = bool(sc.get('bytes'))
     varlen = bool(sc.get('varlen'))
+    eol = sc.get('eol', '\n').encode('latin-1')
 
     def reply_bytes(gid):
         if varlen:
             return b'R\x04%02d!!' % gid
-        return (b'R%02d!' % gid) if is_bytes else (b'R%d\n' % gid)
+        return (b'R%02d!' % gid) if is_bytes else (b'R%d' % gid) + eol
 
     def device():
         while True:
@@ -283,10 +286,10 @@ def make_device(w, sc):
                 raw, dev.inbuf = dev.inbuf[:3], dev.inbuf[3:]
                 gid = int(raw[1:3])
             else:
-                s.block(lambda: b'\n' in dev.inbuf or w.dead, None, 'dev.wait')
+                s.block(lambda: eol in dev.inbuf or w.dead, None, 'dev.wait')
                 if w.dead:
                     return
-                raw, dev.inbuf = dev.inbuf.split(b'\n', 1)
+                raw, dev.inbuf = dev.inbuf.split(eol, 1)
                 try:
                     gid = int(raw[1:])
                 except ValueError:
@@ -350,7 +353,7 @@ def run_scenario(sc, strategy, max_steps=20000):
     def reply_bytes(gid):
         if varlen:
             return b'R\x04%02d!!' % gid
-        return (b'R%02d!' % gid) if is_bytes else (b'R%d\n' % gid)
+        return (b'R%02d!' % gid) if is_bytes else (b'R%d' % gid) + sc.get('eol', '\n').encode('latin-1')
 
     device = make_device(w, sc)
 
